@@ -8365,3 +8365,22 @@ mod tests {
         assert_eq!(fault.status, SchedulerFaultStatus::Active);
     }
 }
+
+/// Verification-only entry points (feature `echo_verif`).
+#[cfg(feature = "echo_verif")]
+impl WorldlineRuntime {
+    /// Replaces the inbox policy of a registered writer head (pending envelopes that the new
+    /// policy rejects are evicted exactly as `HeadInbox::set_policy` does).
+    ///
+    /// Returns `false` when the head is not registered.
+    pub fn verif_set_head_inbox_policy(
+        &mut self,
+        key: &WriterHeadKey,
+        policy: crate::head_inbox::InboxPolicy,
+    ) -> bool {
+        self.heads
+            .inbox_mut(key)
+            .map(|inbox| inbox.set_policy(policy))
+            .is_some()
+    }
+}
